@@ -1,10 +1,13 @@
 // engine dkv: the real LSM store of /repo.
 // mode c07: a real dkv.DB on storage.NewMemoryFilesystem() with tiny sizes; the background flush and compaction tasks are
-//           parked at the verifhook points of dkv/db.go and released at generated points (deterministic, no sleeping);
-//           observables: every Get and ScanPrefix result.
+//
+//	parked at the verifhook points of dkv/db.go and released at generated points (deterministic, no sleeping);
+//	observables: every Get and ScanPrefix result.
+//
 // mode c18: layouts built with sst.TableWriter + sst.NewLevelListOfTables, sst.Compactor stepped with new level-0 tables
-//           arriving between Compact and the application of its change set; observables: LevelList.Get/ScanPrefix of every
-//           key/prefix before and after each step and the key ranges of the tables of every level.
+//
+//	arriving between Compact and the application of its change set; observables: LevelList.Get/ScanPrefix of every
+//	key/prefix before and after each step and the key ranges of the tables of every level.
 package main
 
 import (
@@ -205,28 +208,31 @@ func genC07(r *hx.Rand, idx int) *hx.Case {
 const netWait = 120 * time.Second
 
 type sched struct {
-	db           *dkv.DB
-	arrive       map[string]chan struct{}
-	release      map[string]chan struct{}
-	flushPending int
-	compPending  int
-	fstate       int // 0 idle, 1 parked before the swap
-	cstate       int // 0 idle, 1 parked at the loop head, 2 parked before the swap
-	acts         []string
-	log          []string
-	tags         map[string]bool
-	err          error
-	swaps        int
-	readWithTbl  bool
-	flushedKeys  map[string]bool // keys that are in some table of the level list
-	sealedKeys   []map[string]bool
-	activeKeys   map[string]bool
-	ffs          *faultFS
-	beginArrived bool // the next compaction task already reported dkv.compact.begin
-	failedTasks  int  // compaction tasks that ended with a (fault-induced) error
-	gateHolder   string // "F" / "C": the task whose table Save is parked at the gate
-	c1Idx        int    // position in acts of the OC1 whose change set is filled in when it is applied
-	taskSentinel chan struct{} // signalled by a function queued right behind the running compaction task
+	db                *dkv.DB
+	arrive            map[string]chan struct{}
+	release           map[string]chan struct{}
+	flushPending      int
+	compPending       int
+	fstate            int // 0 idle, 1 parked before the swap
+	cstate            int // 0 idle, 1 parked at the loop head, 2 parked before the swap
+	acts              []string
+	log               []string
+	tags              map[string]bool
+	err               error
+	swaps             int
+	readWithTbl       bool
+	flushedKeys       map[string]bool // keys that are in some table of the level list
+	sealedKeys        []map[string]bool
+	activeKeys        map[string]bool
+	ffs               *faultFS
+	beginArrived      bool          // the next compaction task already reported dkv.compact.begin
+	failedTasks       int           // compaction tasks that ended with a (fault-induced) error
+	gateHolder        string        // "F" / "C": the task whose table Save is parked at the gate
+	c1Idx             int           // position in acts of the OC1 whose change set is filled in when it is applied
+	probe             chan struct{} // the one probe function outstanding on the compaction queue (nil: none)
+	flushBeginArrived bool          // the next flush task already reported dkv.flush.begin
+	flushLimit        int           // capacity of the process-wide flush queue of the code under test
+	compLimit         int           // capacity of the compaction queue
 }
 
 var hookNames = []string{"dkv.flush.begin", "dkv.flush.swap", "dkv.flush.end", "dkv.compact.begin", "dkv.compact.iter",
@@ -263,9 +269,10 @@ func (s *sched) f1(gate bool) bool {
 	if s.fstate != 0 || s.flushPending == 0 || s.err != nil {
 		return false
 	}
-	if !s.wait("dkv.flush.begin") {
+	if !s.flushBeginArrived && !s.wait("dkv.flush.begin") {
 		return false
 	}
+	s.flushBeginArrived = false
 	if gate && s.gateHolder == "" {
 		// hold the Save of the first table this flush writes; released by the next F2
 		s.ffs.gateArmed.Store(true)
@@ -308,7 +315,10 @@ func (s *sched) f2() bool {
 	if s.fstate != 1 || s.err != nil {
 		return false
 	}
-	for s.compPending >= 4 && s.err == nil { // the compaction queue holds 5 functions: make room first
+	// Enqueue blocks when the queue already holds its limit of functions (limit read from the code under test): the queue
+	// holds at most the tasks not yet started plus one sentinel, so make room first by running compaction tasks to their
+	// end - recorded as ordinary steps
+	for s.compPending >= max(1, s.compLimit-1) && s.err == nil {
 		s.runCompactionTask()
 	}
 	// the tables the flush installs = the difference of level 0 across its locked swap (the compaction task is parked or
@@ -320,6 +330,23 @@ func (s *sched) f2() bool {
 	}
 	after := s.db.VerifC07Tables()
 	s.rel("dkv.flush.end")
+	// wait until the flush task FUNCTION has returned (it queues its compaction task, if any, after the end hook): the next
+	// flush task's begin, or a sentinel queued behind it on the serial flush queue
+	if s.flushPending > 0 {
+		if !s.wait("dkv.flush.begin") {
+			return false
+		}
+		s.flushBeginArrived = true
+	} else {
+		fin := make(chan struct{}, 1)
+		s.db.VerifC07EnqueueFlush(func() error { fin <- struct{}{}; return nil })
+		select {
+		case <-fin:
+		case <-time.After(netWait):
+			s.err = fmt.Errorf("the flush task did not return after dkv.flush.end")
+			return false
+		}
+	}
 	was := map[*sst.Table]bool{}
 	for _, l := range before {
 		for _, t := range l {
@@ -360,48 +387,97 @@ func parseFault(a string) (kind string, fault *fault18) {
 	return a, nil
 }
 
-// startCompTask brings the next compaction task to its loop head.
+// ensureProbe keeps exactly one probe function outstanding on the serial compaction queue. A probe runs when everything
+// queued before it is over, so (a) a probe queued while the task queue is otherwise quiet that fires without a
+// dkv.compact.begin arriving first means NO compaction task is queued, and (b) a probe queued behind the running task
+// fires when that task (and the tasks queued before the probe) are over.
+func (s *sched) ensureProbe() (ch chan struct{}, fresh bool) {
+	if s.probe == nil {
+		s.probe = make(chan struct{}, 1)
+		c := s.probe
+		s.db.VerifC07EnqueueCompaction(func() error { c <- struct{}{}; return nil })
+		return s.probe, true
+	}
+	return s.probe, false
+}
+
+// startCompTask brings the next compaction task to its loop head - if one is queued. How many compaction tasks the flushes
+// queue is not predicted (a database may coalesce them): it is found out through the probe.
 func (s *sched) startCompTask() bool {
 	if s.cstate != 0 {
 		return true
 	}
-	if s.compPending == 0 {
+	if s.err != nil {
 		return false
 	}
-	if !s.beginArrived && !s.wait("dkv.compact.begin") {
+	useProbe := s.compLimit >= 2
+	if !useProbe && !s.beginArrived && s.compPending == 0 {
 		return false
+	}
+	for !s.beginArrived {
+		var p chan struct{}
+		fresh := false
+		if useProbe {
+			p, fresh = s.ensureProbe()
+		}
+		select {
+		case <-s.arrive["dkv.compact.begin"]:
+			s.beginArrived = true
+		case <-p:
+			s.probe = nil
+			if fresh { // nothing was queued in front of the probe
+				s.compPending = 0
+				s.tags["c1_without_queued_task"] = true
+				return false
+			}
+		case <-time.After(netWait):
+			s.err = fmt.Errorf("neither a compaction task nor the probe behind the queued ones started")
+			return false
+		}
 	}
 	s.beginArrived = false
+	if useProbe {
+		// a probe that fired before this task began (the serial queue orders it before the begin) is stale; the new one sits
+		// behind this task
+		if s.probe != nil {
+			select {
+			case <-s.probe:
+				s.probe = nil
+			default:
+			}
+		}
+		s.ensureProbe()
+	}
 	s.rel("dkv.compact.begin")
 	if !s.wait("dkv.compact.iter") {
 		return false
 	}
-	s.compPending--
+	if s.compPending > 0 {
+		s.compPending--
+	}
 	s.cstate = 1
 	return true
 }
 
 // taskEndWatch returns the channels on which the END of the running compaction task is observed when the task does not pass a
-// hook point any more (Compact returned an error): a sentinel function queued directly behind the task on the serial
-// compaction queue (only queued when no other task is pending, so that at most one sentinel sits in the queue), or, when
-// tasks are pending, the next task's dkv.compact.begin, which the serial queue orders after the end of this one.
+// hook point any more (Compact returned an error): the probe queued behind it, or the next queued task's
+// dkv.compact.begin, which the serial queue orders after the end of this one.
 func (s *sched) taskEndWatch() (sentinel, nextBegin chan struct{}) {
-	if s.taskSentinel != nil {
-		return s.taskSentinel, nil
-	}
-	if s.compPending == 0 {
-		s.taskSentinel = make(chan struct{}, 1)
-		ch := s.taskSentinel
-		s.db.VerifC07EnqueueCompaction(func() error { ch <- struct{}{}; return nil })
-		return s.taskSentinel, nil
+	if s.compLimit >= 2 {
+		p, _ := s.ensureProbe()
+		return p, s.arrive["dkv.compact.begin"]
 	}
 	return nil, s.arrive["dkv.compact.begin"]
 }
 
+// probeFired is a no-op kept for readability at the places where a task is known to be over: the outstanding probe (if any)
+// will fire by itself and is recognised as stale by startCompTask.
+func (s *sched) probeFired() {}
+
 // taskDied records that the compaction task ended with an error instead of reaching a hook point.
 func (s *sched) taskDied() {
 	s.cstate = 0
-	s.taskSentinel = nil
+	s.probeFired()
 	s.failedTasks++
 	if s.ffs.faults.Load() > 0 {
 		s.tags["fault_hit_compact_error"] = true
@@ -453,9 +529,10 @@ func (s *sched) c1g() bool {
 	case <-s.arrive["dkv.compact.end"]:
 		s.rel("dkv.compact.end")
 		s.cstate = 0
-		s.taskSentinel = nil
+		s.probeFired()
 		s.emit("(OC1 (@None changeset))", "C1:nil")
 	case <-sentinel:
+		s.probe = nil
 		s.taskDied()
 	case <-nextBegin:
 		s.beginArrived = true
@@ -502,9 +579,10 @@ func (s *sched) c1(fault *fault18) bool {
 	case <-s.arrive["dkv.compact.end"]:
 		s.rel("dkv.compact.end")
 		s.cstate = 0
-		s.taskSentinel = nil
+		s.probeFired()
 		s.emit("(OC1 (@None changeset))", "C1:nil")
 	case <-sentinel:
+		s.probe = nil
 		s.taskDied()
 	case <-nextBegin:
 		s.beginArrived = true
@@ -525,9 +603,10 @@ func (s *sched) c2() bool {
 		case <-s.arrive["dkv.compact.swap"]:
 			s.cstate = 2
 		case <-sentinel: // the held Save (or what follows it) failed: the task is over, its change set is never applied
+			s.probe = nil
 			s.acts[s.c1Idx] = "OC1F"
 			s.cstate = 0
-			s.taskSentinel = nil
+			s.probeFired()
 			s.failedTasks++
 			s.emit("OTaskErr", "compaction task ended with an error after its held table Save")
 			return false
@@ -535,7 +614,7 @@ func (s *sched) c2() bool {
 			s.beginArrived = true
 			s.acts[s.c1Idx] = "OC1F"
 			s.cstate = 0
-			s.taskSentinel = nil
+			s.probeFired()
 			s.failedTasks++
 			s.emit("OTaskErr", "compaction task ended with an error after its held table Save")
 			return false
@@ -641,7 +720,10 @@ func (s *sched) bg(a string) bool {
 }
 
 func (s *sched) write(k, v []byte, del bool) {
-	for s.flushPending >= 4 && s.err == nil { // the flush queue holds 5 functions: make room first
+	// a write may rotate the memtable and Enqueue a flush task, which blocks the caller when the queue already holds its
+	// limit of functions (read from the code under test): never call it with that many tasks pending - run flush
+	// half-steps first, recorded as ordinary steps
+	for s.flushPending >= max(1, s.flushLimit-1) && s.err == nil {
 		if s.fstate != 0 {
 			s.f2()
 		} else {
@@ -810,6 +892,7 @@ func execC07(c *hx.Case) (*hx.Result, error) {
 		Logger: slog.New(slog.NewTextHandler(io.Discard, nil)),
 	}, nil)
 	s.db = db
+	s.flushLimit, s.compLimit = dkv.VerifQueueLimits()
 	verifhook.Set(func(name string, args ...any) {
 		if len(args) == 0 {
 			return
@@ -871,7 +954,11 @@ func execC07(c *hx.Case) (*hx.Result, error) {
 			s.f1(false)
 		}
 	}
-	for s.err == nil && (s.cstate != 0 || s.compPending > 0) {
+	// run every compaction task that is actually queued (found out through the probe, not predicted) to its end
+	for s.err == nil {
+		if s.cstate == 0 && !s.startCompTask() {
+			break
+		}
 		s.runCompactionTask()
 	}
 	for _, d := range s.ffs.takeDups() {
